@@ -237,6 +237,10 @@ def require_guards(
                 chk.ok(rule, key, site.where(), f"{label} is dominated by guard '{gname}'",
                        [got.text] if isinstance(got, Fact) else [])
             else:
+                opaque = list(getattr(getattr(site, "flow", None), "opaque_new", []) or [])
+                if opaque:
+                    # a helper this change introduced could not be walked as part of the function: the guard may be established inside it
+                    raise AnalysisError(f"{site.where()}: guard '{gname}' of {label} not found, and the new helper(s) {opaque} could not be looked through")
                 chk.bad(rule, key, site.where(),
                         f"IR mutation {label} ({ast.unparse(site.node)[:70]}) is reachable without guard '{gname}'",
                         site.fact_texts)
